@@ -46,6 +46,24 @@ func buildSymbolTable(env *Environment, errorSink *validation.ErrorSink) *Enviro
 	return env
 }
 
+// visibleSymbols returns the part of the symbol table that the given namespace may refer to:
+// its own definitions and those of the namespaces it imports, directly or indirectly.
+// Another namespace that merely happens to be part of the same load is not visible
+// (the package would not validate on its own).
+func visibleSymbols(ns *Namespace, symbolTable SymbolTable) SymbolTable {
+	visible := map[string]bool{ns.Name: true}
+	for _, ref := range ns.GetAllChildReferences() {
+		visible[ref.Name] = true
+	}
+	scoped := make(SymbolTable, len(symbolTable))
+	for name, def := range symbolTable {
+		if meta := def.GetDefinitionMeta(); meta == nil || meta.Namespace == "" || visible[meta.Namespace] {
+			scoped[name] = def
+		}
+	}
+	return scoped
+}
+
 func resolveTypes(env *Environment, errorSink *validation.ErrorSink) *Environment {
 	type visitorContext struct {
 		currentNamespace string
@@ -55,7 +73,7 @@ func resolveTypes(env *Environment, errorSink *validation.ErrorSink) *Environmen
 	VisitWithContext(env, &visitorContext{symbolTable: env.SymbolTable}, func(self VisitorWithContext[*visitorContext], node Node, context *visitorContext) {
 		switch t := node.(type) {
 		case *Namespace:
-			self.VisitChildren(node, &visitorContext{currentNamespace: t.Name, symbolTable: env.SymbolTable})
+			self.VisitChildren(node, &visitorContext{currentNamespace: t.Name, symbolTable: visibleSymbols(t, env.SymbolTable)})
 			return
 		case TypeDefinition:
 			definitionMeta := t.GetDefinitionMeta()
@@ -97,7 +115,7 @@ func convertGenericReferences(env *Environment, errorSink *validation.ErrorSink)
 	VisitWithContext(env, visitorContext{symbolTable: env.SymbolTable}, func(self VisitorWithContext[visitorContext], node Node, context visitorContext) {
 		switch t := node.(type) {
 		case *Namespace:
-			self.VisitChildren(node, visitorContext{context.symbolTable, t.Name})
+			self.VisitChildren(node, visitorContext{visibleSymbols(t, context.symbolTable), t.Name})
 			return
 		case TypeDefinition:
 			definitionMeta := t.GetDefinitionMeta()
